@@ -109,7 +109,8 @@ def scenarios(rng, root):
         def run(outdir):
             from amr_kitchen.mandoline import Mandoline
             # two successive slices cut with one object (the state the first leaves behind must not depend on the mode)
-            m = Mandoline(p2, fields=['all'], serial=serial, verbose=0)
+            # (every second plotfile: two fields in another order than the plotfile's)
+            m = Mandoline(p2, fields=['all'] if pf2.nlevels % 2 else [keys2[-1], keys2[0]], serial=serial, verbose=0)
             return [m.slice(fformat='return'), m.slice(fformat='return')]
         return run
     sc.append(('mandoline 2D', mk_m2(False), mk_m2(True)))
@@ -121,7 +122,7 @@ def scenarios(rng, root):
     def mk_m3(serial):
         def run(outdir):
             from amr_kitchen.mandoline import Mandoline
-            m = Mandoline(p3, fields=[keys3[1], 'grid_level'], serial=serial, verbose=0)
+            m = Mandoline(p3, fields=[keys3[2], keys3[0], 'grid_level'], serial=serial, verbose=0)
             return [m.slice(normal=2, pos=pos, fformat='return'), m.slice(normal=1, pos=pos_y, fformat='return')]
         return run
     sc.append(('mandoline 3D slice', mk_m3(False), mk_m3(True)))
